@@ -4,8 +4,8 @@
    regex.py by the value correspondence of harness/props/c19.py.
    Strings are lists of code points; all theorems hold for ALL strings and integers. *)
 From Coq Require Import List ZArith Bool Sorted.
-From YV Require Import Common.Corr Model.Strings Model.Regex.
-From YV Require Import Lemmas.StringsSlice Lemmas.StringsFind Lemmas.StringsSplit Lemmas.StringsTrim Lemmas.StringsOrder Lemmas.RegexPublish.
+From YV Require Import Common.Corr Model.Strings Model.Regex Model.RegexEngine Gen.CaseMap Model.CaseMap.
+From YV Require Import Lemmas.StringsSlice Lemmas.StringsFind Lemmas.StringsSplit Lemmas.StringsTrim Lemmas.StringsOrder Lemmas.RegexPublish Lemmas.RegexEngineFacts Lemmas.CaseMapFacts Lemmas.StringsMisc.
 Import ListNotations.
 Open Scope Z_scope.
 
@@ -179,6 +179,55 @@ Theorem C19_case_ascii : forall s,
   ascii_upper (ascii_lower s) = ascii_upper s /\ ascii_lower (ascii_upper s) = ascii_lower s.
 Proof. exact case_map_spec. Qed.
 
+(* ---- toUpper / toLower on the regenerated simple case mapping (BMP) ------------------------------------------
+   [upper_pairs] / [lower_pairs] are regenerated from the running interpreter on every run (Gen/CaseMap.v);
+   the facts below are re-checked against the regenerated table. *)
+Theorem C19_case_unicode : forall s,
+  length (uni_upper s) = length s /\ length (uni_lower s) = length s /\
+  uni_upper (uni_upper s) = uni_upper s /\ uni_lower (uni_lower s) = uni_lower s /\
+  (is_ascii s = true -> uni_upper s = ascii_upper s /\ uni_lower s = ascii_lower s).
+Proof. exact case_unicode_spec. Qed.
+
+(* per code point: the result is the table row of the code point, or the code point itself *)
+Theorem C19_case_table : forall c,
+  (In (c, uni_upper_c c) upper_pairs \/ uni_upper_c c = c) /\ (In (c, uni_lower_c c) lower_pairs \/ uni_lower_c c = c).
+Proof. exact (fun c => conj (uni_upper_c_spec c) (uni_lower_c_spec c)). Qed.
+
+Example C19_case_ex :
+  uni_upper [233; 1103; 97] = [201; 1071; 65] /\ uni_lower [201; 1071; 65] = [233; 1103; 97] /\
+  covered_upper [223] = false /\ covered_lower [304] = false /\ covered_lower [931] = false.
+Proof. vm_compute. repeat split. Qed.
+
+(* ---- hex, escapeRegex, isString, isRegex ---------------------------------------------------------------------- *)
+(* escapeRegex: reading the escaped text back (a backslash makes the next character literal) gives the
+   text; text without special characters is unchanged; at most one backslash per character *)
+Theorem C19_escape_regex : forall s,
+  unescape (escape_regex s) = s /\
+  (forallb (fun c => negb (memb c re_special)) s = true -> escape_regex s = s) /\
+  (length s <= length (escape_regex s) <= 2 * length s)%nat.
+Proof. exact (fun s => conj (unescape_escape s) (conj (escape_plain s) (escape_length s))). Qed.
+
+(* hex: sign and the one-digit numbers; the multi-digit recursion is covered by C only (hence _partial) *)
+Theorem C19_hex_partial : forall n,
+  (n < 0 -> hex_of n = 45 :: hex_of (- n)) /\ (0 <= n < 16 -> hex_of n = [48; 120; hex_digit n]).
+Proof. exact (fun n => conj (hex_negative n) (hex_small n)). Qed.
+
+Example C19_hex_ex : hex_of 256 = [48; 120; 49; 48; 48] /\ hex_of (-255) = [45; 48; 120; 102; 102] /\ hex_of 0 = [48; 120; 48].
+Proof. vm_compute. repeat split. Qed.
+
+Theorem C19_is_string_regex : forall v,
+  (is_string v = true <-> exists s, v = SStr s) /\ is_regex (Some v) = false /\ is_regex None = true.
+Proof.
+  exact (fun v => conj (conj (fun H => match v as v0 return is_string v0 = true -> exists s, v0 = SStr s with
+                                         | SStr s => fun _ => ex_intro _ s eq_refl
+                                         | SNull => fun H0 => False_ind _ (Bool.diff_false_true H0)
+                                         | SBool _ => fun H0 => False_ind _ (Bool.diff_false_true H0)
+                                         | SInt _ => fun H0 => False_ind _ (Bool.diff_false_true H0)
+                                         end H)
+                                   (fun H => match H with ex_intro _ s E => eq_ind_r (fun v0 => is_string v0 = true) eq_refl E end))
+                        (conj eq_refl eq_refl)).
+Qed.
+
 (* ---- _publish_match ------------------------------------------------------------------------------------ *)
 (* after _publish_match m: $1 is the whole match, $(i+2) is group i+1, $name is the record of the
    group of that name; nothing else is published *)
@@ -229,6 +278,73 @@ Theorem C19_replace_by_one : forall s m f v st en, m_whole m = (v, st, en) ->
   splice s 0 [m] f = firstn (Z.to_nat st) s ++ f m ++ skipn (Z.to_nat en) s.
 Proof. exact splice_one. Qed.
 
+(* ---- the modelled regex engine (Model/RegexEngine.v) ------------------------------------------------------
+   For patterns of the modelled language the match records are no longer an arbitrary oracle: they are
+   computed by the backtracking matcher, and matches / search / searchAll / split / replace / replaceBy
+   are stated on top of it ([eeval]).  Positions are [nat] here. *)
+
+(* fuel suffices: a result obtained with some fuel is the result for every larger fuel; the bound on the
+   number of matches (2 * length + 3) is never what runs out *)
+Theorem C19_engine_fuel_suffices : forall f f' fl p s op r, (f <= f')%nat ->
+  eeval f fl p s op = Some r -> eeval f' fl p s op = Some r.
+Proof. exact eeval_mono. Qed.
+
+Theorem C19_engine_run_fuel : forall fl ma st0 f f' k st c x, (f <= f')%nat ->
+  run f fl ma st0 k st c = Some x -> run f' fl ma st0 k st c = Some x.
+Proof. exact run_mono_le. Qed.
+
+Theorem C19_engine_gas_suffices : forall fuel fl p s gas, (2 * length s + 2 <= gas)%nat ->
+  find_all_go gas fuel fl p s 0 false = find_all fuel fl p s.
+Proof. exact find_all_gas_suffices. Qed.
+
+(* every reported match is a slice [b, e) of the subject, every group that took part is a slice inside
+   the match, there are exactly as many group records as the pattern has groups; searchAll's matches
+   are in increasing order and do not overlap (after an empty match the next one at the same position is
+   not empty) *)
+Theorem C19_engine_matches_inside : forall fuel fl p s ms, engine_finditer fuel fl p s = Some ms ->
+  Forall (mrec_ok p s) ms /\ matches_ordered ms.
+Proof. exact engine_finditer_spec. Qed.
+
+Theorem C19_engine_search : forall fuel fl p s,
+  (forall m, engine_search fuel fl p s = Some (Some m) -> mrec_ok p s m) /\
+  (forall ms, engine_finditer fuel fl p s = Some ms -> engine_search fuel fl p s = Some (hd_error ms)).
+Proof. exact (fun fuel fl p s => conj (engine_search_spec fuel fl p s) (engine_search_head fuel fl p s)). Qed.
+
+(* the yaql functions on the modelled engine: each is the function of Model/Regex.v applied to the
+   engine's own matches; matches / search use the first of them *)
+Theorem C19_engine_functions : forall fuel fl p s ms, engine_finditer fuel fl p s = Some ms ->
+  (forall sel, eeval fuel fl p s (ESearchAll sel) = Some (reval (RSearchAll ms sel))) /\
+  (forall items cnt, eeval fuel fl p s (EReplaceBy items cnt) = Some (XStr (replace_by s ms items cnt))) /\
+  (forall repl cnt, eeval fuel fl p s (EReplaceLit repl cnt) = Some (XStr (replace_lit s ms repl cnt))) /\
+  (forall cnt, eeval fuel fl p s (ESplit cnt) = Some (XOStrs (regex_split s ms cnt))) /\
+  (forall sel c, eeval fuel fl p s (ESearchAllLazy sel c) = Some (XVals (search_all_lazy ms sel c))) /\
+  eeval fuel fl p s EMatches = Some (XBool (match ms with [] => false | _ => true end)) /\
+  (forall sel, eeval fuel fl p s (ESearch sel) = Some (reval (RSearch (hd_error ms) sel))).
+Proof. exact eeval_all. Qed.
+
+(* no match: replace / replaceBy are the identity, split gives the subject, search gives null *)
+Theorem C19_engine_no_match_identity : forall fuel fl p s, engine_finditer fuel fl p s = Some [] ->
+  (forall items cnt, eeval fuel fl p s (EReplaceBy items cnt) = Some (XStr s)) /\
+  (forall repl cnt, eeval fuel fl p s (EReplaceLit repl cnt) = Some (XStr s)) /\
+  (forall cnt, eeval fuel fl p s (ESplit cnt) = Some (XOStrs [Some s])) /\
+  eeval fuel fl p s EMatches = Some (XBool false) /\
+  (forall sel, eeval fuel fl p s (ESearch sel) = Some XNull).
+Proof. exact eeval_no_match. Qed.
+
+(* pattern "(?P<x>a)(b)?" on "cab": one match [1,3[ with groups a = [1,2[, b = [2,3[.  Lazy "a??" on "a": the empty
+   match at 0, then - it must advance - the non-empty one at 0, then the empty one at 1.  A starred group
+   whose body is a starred "a", on "b": terminates (zero-width iteration protection). *)
+Example C19_engine_ex :
+  let fl := {| ignore_case := false; multi_line := false; dot_all := false |} in
+  let p := {| p_re := Seq (Grp 1 (Chr 97)) (Rep (Grp 2 (Chr 98)) 0 (Some 1%nat) true); p_groups := 2; p_names := [([120], 1%nat)] |} in
+  engine_finditer 100 fl p [99; 97; 98] =
+    Some [{| m_whole := (Some [97; 98], 1, 3); m_groups := [(Some [97], 1, 2); (Some [98], 2, 3)]; m_named := [([120], 1%nat)] |}]
+  /\ find_all 100 fl {| p_re := Rep (Chr 97) 0 (Some 1%nat) false; p_groups := 0; p_names := [] |} [97] =
+    Some [(0, 0, []); (0, 1, []); (1, 1, [])]%nat
+  /\ find_all 100 fl {| p_re := Rep (Grp 1 (Rep (Chr 97) 0 None true)) 0 None true; p_groups := 1; p_names := [] |} [98] =
+    Some [(0, 0, [Some (0, 0)]); (1, 1, [Some (1, 1)])]%nat.
+Proof. vm_compute. repeat split. Qed.
+
 (* ---- non-vacuity ------------------------------------------------------------------------------------------ *)
 Example C19_substring_ex :
   substring [97; 98; 99; 100] (-3) 2 = [98; 99] /\ substring [97; 98; 99; 100] 1 (-1) = [98; 99; 100].
@@ -276,3 +392,6 @@ Print Assumptions C19_characters.
 Print Assumptions C19_publish.
 Print Assumptions C19_compare.
 Print Assumptions C19_search_all_per_match.
+Print Assumptions C19_engine_matches_inside.
+Print Assumptions C19_engine_fuel_suffices.
+Print Assumptions C19_case_unicode.
